@@ -25,7 +25,7 @@ Devs == {Cfg.devs[i] : i \in DOMAIN Cfg.devs}
 VARIABLES l,     \* next event
           used   \* deviations used so far in the current run
 
-tvars == <<dbs, sess, subs, mx, l, used>>
+tvars == <<dbs, sess, subs, mx, skew, l, used>>
 
 E == Rec[l]
 Dev(x) == x \in Devs
@@ -33,7 +33,7 @@ Dev(x) == x \in Devs
 TraceInit ==
   /\ l = 1 /\ used = {}
   /\ dbs = [x \in {} |-> 0] /\ sess = [x \in {} |-> 0]
-  /\ subs = [x \in {} |-> 0] /\ mx = [x \in {} |-> 0]
+  /\ subs = [x \in {} |-> 0] /\ mx = [x \in {} |-> 0] /\ skew = [x \in {} |-> 0]
   /\ TLCSet(1, 0) /\ TLCSet(2, {}) /\ TLCSet(3, <<>>)
 
 Reset ==
@@ -43,6 +43,7 @@ Reset ==
   /\ subs' = [x \in {} |-> 0]
   /\ mx' = [d \in DOMAIN E.dbs |-> [k \in LiveKeys(E.dbs, d) |-> Ver(E.dbs, d, k)]]
   /\ used' = {}
+  /\ skew' = [x \in {} |-> 0]
   /\ (used # {}) => PrintT(<<"USED", Rec[l-1].run, used>>)
 
 (* A restart ends every session; what the store must look like afterwards is the   *)
@@ -54,6 +55,7 @@ Restart ==
   /\ sess' = [x \in {} |-> 0]
   /\ subs' = [x \in {} |-> 0]
   /\ mx' = [d \in DOMAIN E.dbs |-> [k \in LiveKeys(E.dbs, d) |-> Ver(E.dbs, d, k)]]
+  /\ skew' = [x \in {} |-> 0]
   /\ UNCHANGED used
 
 -----------------------------------------------------------------------------
@@ -68,6 +70,7 @@ Dev_IncOnTombstoneRefused ==
   /\ Has(dbs, S(E.c).sel, E.k) /\ ~Live(dbs, S(E.c).sel, E.k)
   /\ Refused(E.cls) /\ Unchanged(E) /\ NoNotes(E)
   /\ dbs' = E.dbs /\ UNCHANGED <<sess, subs, mx>>
+  /\ UNCHANGED skew
   /\ used' = used \cup {"Dev_IncOnTombstoneRefused"}
 
 (* C02: a successful increment resets the version to 1 *)
@@ -80,6 +83,7 @@ Dev_IncResetsVersion ==
      /\ Ver(E.dbs, d, E.k) = 1 /\ OldMx(d, E.k) >= 1
      /\ UnchangedBut(E, d, {E.k})
   /\ dbs' = E.dbs /\ mx' = MxAfter(E) /\ UNCHANGED <<sess, subs>>
+  /\ UNCHANGED skew
   /\ used' = used \cup {"Dev_IncResetsVersion"}
 
 (* C17: selecting a database while one is already selected counts the session twice *)
@@ -90,12 +94,38 @@ Dev_UseDbCountsEverySelect ==
   /\ S(E.c).sel # "-"
   /\ sess' = [x \in DOMAIN sess \cup {E.c} |->
                 IF x = E.c THEN [S(E.c) EXCEPT !.sel = E.d, !.user = E.u] ELSE sess[x]]
-  /\ E.dbs[E.d].conns = dbs[E.d].conns + 1
-  /\ \A d \in DOMAIN dbs \ {E.d} : E.dbs[d].conns = dbs[d].conns
+  \* the previously selected database keeps counting this session
+  /\ skew' = [d \in DOMAIN skew \cup {S(E.c).sel} |->
+                IF d = S(E.c).sel THEN SkewOf(d) + 1 ELSE skew[d]]
+  /\ \A d \in DOMAIN E.dbs : d # "$admin" =>
+        E.dbs[d].conns = OpenOn(sess', d) + (IF d \in DOMAIN skew' THEN skew'[d] ELSE 0)
+  /\ UnchangedBut(E, E.d, {"$connections"})
   /\ dbs' = E.dbs /\ mx' = MxAfter(E) /\ UNCHANGED subs
   /\ used' = used \cup {"Dev_UseDbCountsEverySelect"}
 
+(* C08/C09: `resolve' is executed without any credential or permission check *)
+Dev_ResolveBypassesAccess ==
+  /\ Dev("Dev_ResolveBypassesAccess")
+  /\ E.ev = "cmd" /\ E.op = "resolve" /\ ~Authorised(E.c, E)
+  /\ ~(Refused(E.cls) /\ Unchanged(E) /\ NoSideEffects(E) /\ NoNotes(E))
+  /\ dbs' = E.dbs /\ mx' = MxAfter(E) /\ UNCHANGED <<sess, subs>>
+  /\ UNCHANGED skew
+  /\ used' = used \cup {"Dev_ResolveBypassesAccess"}
+
+(* C09: `election <anything but win/candidate>' is accepted without authentication and *)
+(* queued for replication; the data is untouched.                                      *)
+Dev_ElectionActiveUnauth ==
+  /\ Dev("Dev_ElectionActiveUnauth")
+  /\ E.ev = "cmd" /\ E.op = "election-other" /\ ~Authorised(E.c, E)
+  /\ Success(E.cls) /\ Unchanged(E) /\ NoNotes(E)
+  /\ E.side.repl = 1 /\ E.side.sup = 0 /\ E.side.snapq = 0
+  /\ dbs' = E.dbs /\ UNCHANGED <<sess, subs, mx>>
+  /\ UNCHANGED skew
+  /\ used' = used \cup {"Dev_ElectionActiveUnauth"}
+
 Deviation ==
+  \/ Dev_ResolveBypassesAccess
+  \/ Dev_ElectionActiveUnauth
   \/ Dev_IncOnTombstoneRefused
   \/ Dev_IncResetsVersion
   \/ Dev_UseDbCountsEverySelect
@@ -105,8 +135,8 @@ Normal ==
   \/ Reset
   \/ Restart
   \/ E.ev = "cmd" /\ Cmd(E.c, E, E) /\ UNCHANGED used
-  \/ E.ev = "tick" /\ Tick(E) /\ UNCHANGED used
-  \/ E.ev = "close" /\ Close(E.c, E) /\ UNCHANGED used
+  \/ E.ev = "tick" /\ Tick(E) /\ UNCHANGED <<used, skew>>
+  \/ E.ev = "close" /\ Close(E.c, E) /\ UNCHANGED <<used, skew>>
 
 TraceNext ==
   /\ l <= Len(Rec)
